@@ -56,7 +56,7 @@ func runC12(c *core.Ctx) {
 			rec(k, hid)
 		}
 		for _, k := range n.Hidden {
-			if n.Kind != "mark" {
+			if n.Kind != "mark" && n.Kind != "markempty" {
 				rec(k, true)
 			}
 		}
